@@ -18,9 +18,13 @@ Outcomes(c) == StepOutcomes(c.spec, c.st, c.pending, Perm(c))
 
 Obs(o) == Out(o.stride, NormSt(o.to), o.consumed, o.emitted, o.cls)
 
-\* a state given with nil (absent) bindings is judged for totality only (C07)
+\* A state given with nil (absent) bindings is a state with empty bindings for the branches of its node (a branch
+\* without a pattern is followed, patterns are matched against an empty map).  What an ECMAScript action or guard makes
+\* of absent bindings (`_.bindings` is null there) is not part of the rule: such nodes are judged for totality only (C07).
+ScriptFree(node) == /\ (HasAct(node) => node.native)
+                    /\ \A i \in DOMAIN node.branches : (node.branches[i].guard # NoOps => node.native)
 Judgeable(c) ==
-  /\ ~c.nilbs
+  /\ (c.nilbs => (StNode(c.st) \in DOMAIN c.spec.nodes => ScriptFree(c.spec.nodes[StNode(c.st)])))
   /\ ~c.q
   /\ (StNode(c.st) \in DOMAIN c.spec.nodes => NodeJudgeable(c.spec.nodes[StNode(c.st)]))
 
